@@ -3,7 +3,7 @@ from __future__ import annotations
 
 import p_session as PS
 
-LEAN_TARGETS = ["Verif.Props.C08"]
+LEAN_TARGETS = ["Verif.Props.C08", "Verif.Props.C08More", "Verif.Props.C10More"]
 LEVEL = "proof"
 ASSUMPTIONS = [
     "sets of message ids are modelled as duplicate-free lists; internal buffers are observed read-only by the harness",
